@@ -32,6 +32,17 @@ where
     }
 }
 
+/// The symlink lives inside the cache, so a relative target has to be resolved
+/// against the caller's working directory before it is stored.
+fn absolute_target(target: &Path) -> Result<PathBuf> {
+    if target.is_absolute() {
+        return Ok(target.to_path_buf());
+    }
+    Ok(std::env::current_dir()
+        .with_context(|| format!("Failed to resolve relative path {}", target.display()))?
+        .join(target))
+}
+
 fn create_symlink(sri: Integrity, cache: &PathBuf, target: &PathBuf) -> Result<Integrity> {
     let cpath = path::content_path(cache.as_ref(), &sri);
     DirBuilder::new()
@@ -80,7 +91,7 @@ impl ToLinker {
         let file = File::open(target)
             .with_context(|| format!("Failed to open reader to {}", target.display()))?;
         Ok(Self {
-            target: target.to_path_buf(),
+            target: absolute_target(target)?,
             cache: cache.to_path_buf(),
             fd: file,
             builder: IntegrityOpts::new().algorithm(algo),
@@ -155,7 +166,7 @@ impl AsyncToLinker {
             .await
             .with_context(|| format!("Failed to open reader to {}", target.display()))?;
         Ok(Self {
-            target: target.to_path_buf(),
+            target: absolute_target(target)?,
             cache: cache.to_path_buf(),
             fd: file,
             builder: IntegrityOpts::new().algorithm(algo),
